@@ -29,6 +29,7 @@
 #define _GNU_SOURCE 1
 #include <assemblyline.h>
 #include <stdio.h>
+#include <sys/resource.h>
 #include <stdlib.h>
 #include <string.h>
 #include <stdint.h>
@@ -235,6 +236,17 @@ int main(void) {
       putchar('\n');
       break;
     }
+    case 'H': { /* H <id> <n>: at most n open descriptors for this process from now on (0: back to the original limit) */
+      static struct rlimit orig; static int have = 0;
+      struct rlimit rl;
+      int n = atoi(strtok_r(NULL, " ", &save));
+      if (!have) { getrlimit(RLIMIT_NOFILE, &orig); have = 1; }
+      rl = orig;
+      if (n > 0 && (rlim_t)n < orig.rlim_cur) rl.rlim_cur = (rlim_t)n;
+      setrlimit(RLIMIT_NOFILE, &rl);
+      puts("ok");
+      break;
+    }
     case 'G':
       printf("%d\n", asm_get_offset(inst[id]));
       break;
@@ -273,6 +285,7 @@ int main(void) {
       puts("bad-op");
     }
   }
+  free(line);
   fflush(stdout);
   return 0;
 }
